@@ -97,7 +97,7 @@ def strategy_(draw, tier):
         f = [x for x in f if not x.startswith("tp:A:")]
         lines[0] = "\t".join(f)
     perm2 = list(draw(st.permutations(range(len(lines)))))
-    return {"gaf": lines, "perm": perm2}
+    return {"gaf": lines, "perm": perm2, "via": draw(st.sampled_from(["api", "api", "cli", "cli_stdout"]))}
 
 
 def strategy(tier):
@@ -164,12 +164,19 @@ CIG_REPORT = {
 }
 
 
-def run_stat(lines, cigar_stat):
+def run_stat(lines, cigar_stat, via="api"):
     from gaftools.cli.stat import run_stat as rs
 
     with core.workdir() as d:
         core.write_text(d + "/in.gaf", "".join(l + "\n" for l in lines))
-        res = core.call(rs, d + "/in.gaf", cigar_stat=cigar_stat, output=d + "/out.txt")
+        if via == "api":
+            res = core.call(rs, d + "/in.gaf", cigar_stat=cigar_stat, output=d + "/out.txt")
+        elif via == "cli":
+            res = core.cli(["stat", d + "/in.gaf", "-o", d + "/out.txt"] + (["--cigar"] if cigar_stat else []))
+        else:
+            res = core.cli(["stat", d + "/in.gaf"] + (["--cigar"] if cigar_stat else []), capture_stdout=True)
+            if res[0] == "ok":
+                core.write_text(d + "/out.txt", res[1])
 
         try:
             text = core.read_text(d + "/out.txt")
@@ -207,7 +214,7 @@ def run_case(case):
     lines = case["gaf"]
     reports = []
     for cigar_stat in (False, True):
-        rep = run_stat(lines, cigar_stat)
+        rep = run_stat(lines, cigar_stat, via=case.get("via", "api"))
         compare(rep, expected(lines, cigar_stat), cigar_stat)
         reports.append(rep)
     l2 = [lines[i] for i in case["perm"]]
@@ -219,7 +226,7 @@ def run_case(case):
         core.check(abs(float(rep2[k]) - float(reports[1][k])) <= 1.1e-3, "%s changes with record order: %s vs %s",
                    k, reports[1][k], rep2[k])
     # classes
-    classes = []
+    classes = ["via:" + case.get("via", "api")]
     fs = [l.split("\t") for l in lines]
     sec_tag = any(any(x.startswith("tp:A:") and x[5:] != "P" for x in f[12:]) for f in fs)
     sec_mapq = any(int(f[11]) == 0 for f in fs)
